@@ -307,7 +307,8 @@ def gen_container(rng, stats, nflows=None, **kw):
 # --------------------------------------------------------------------------- malformed stream
 MALFORMATIONS = ["dangling_destination", "basic_without_actions", "pass_through_action", "has_phone_no_args",
                  "has_group_one_arg", "duplicate_node_uuid", "airtime_in_basic_node", "remove_all_groups",
-                 "empty_flow", "no_args_under_child_status", "group_split_without_cases", "set_contact_channel"]
+                 "empty_flow", "no_args_under_child_status", "group_split_without_cases", "set_contact_channel",
+                 "has_group_one_arg_other_operand", "has_group_under_child_status"]
 
 
 def malform(rng, cont, which):
@@ -351,6 +352,21 @@ def malform(rng, cont, which):
         elif which == "set_contact_channel":
             a = {"uuid": new_uuid(rng), "type": "set_contact_channel", "channel": {"uuid": new_uuid(rng), "name": "ch"}}
             n["actions"].insert(rng.randrange(len(n["actions"]) + 1), a)
+        return c
+    if which == "has_group_one_arg_other_operand":
+        # a has_group case with the uuid only, outside a group split: there is no name to write
+        cands = [n for n in switches if n["router"]["cases"] and n["router"]["operand"] != "@contact.groups"]
+        if not cands:
+            return None
+        k = rng.choice(rng.choice(cands)["router"]["cases"])
+        k["type"], k["arguments"] = "has_group", [c["groups"][0]["uuid"]]
+        return c
+    if which == "has_group_under_child_status":
+        efs = [n for n in nodes if n["actions"] and n["actions"][0]["type"] == "enter_flow" and "router" in n]
+        if not efs:
+            return None
+        g = c["groups"][0]
+        rng.choice(efs)["router"]["cases"][0].update(type="has_group", arguments=[g["uuid"], g["name"]])
         return c
     if switches and which in ("has_phone_no_args", "has_group_one_arg", "group_split_without_cases"):
         n = rng.choice(switches)
